@@ -84,7 +84,9 @@ impl Mutex {
                     .as_ref()
                     .map(|operation| operation.object());
 
-                if obj == Some(self.state.erase()) {
+                // `operation` may be left over from an earlier operation on
+                // this mutex: only wake threads that are blocked on it.
+                if obj == Some(self.state.erase()) && thread.is_blocked() {
                     trace!(state = ?self.state, thread = ?id,
                         "Mutex::release_lock");
                     thread.set_runnable();
